@@ -833,6 +833,64 @@ root(void *arg)
     mc_explore(&H, c->depth, c->dev);
 }
 
+/* the per-tag table of used reference numbers grows in steps: n consecutive numbers of one tag, then one far beyond them in a
+   single step; afterwards every number is still known as used / unused, also after reopening */
+static void
+jump_case(long idx, void *ctx)
+{
+    (void)ctx;
+    static const int NN[6] = {100, 130, 250, 513, 1000, 1027};
+    static const int JJ[5] = {600, 1500, 5000, 40000, 65535};
+    int n = NN[idx % 6], jump = JJ[idx / 6 % 5];
+    int cfg[1] = {1000 + (int)idx};
+    mc_set_config(cfg, 1, "reference-number jump case %ld", idx);
+    mc_set_case("tag 100 under reference numbers 1..%d, then %d in one step (Hdupdd), then Htagnewref / Hdeldd / Hnumber, reopen", n, jump);
+    if (jump <= n)
+        return;
+    vfs_remove_file(PATH);
+    fid = Hopen(PATH, DFACC_CREATE, 16);
+    uint8 d[2] = {1, 2};
+    for (int r = 1; r <= n; r++)
+        if (Hputelement(fid, 100, (uint16)r, d, 2) != 2) {
+            mc_violation("jump:put", "Hputelement(100,%d) failed", r);
+            return;
+        }
+    if (Hdupdd(fid, 100, (uint16)jump, 100, 1) == FAIL) {
+        mc_violation("jump:dup", "Hdupdd onto reference number %d failed", jump);
+        return;
+    }
+    for (int phase = 0; phase < 2; phase++) {
+        if (phase == 1 && (Hclose(fid) == FAIL || (fid = Hopen(PATH, DFACC_RDWR, 0)) == FAIL)) {
+            mc_violation("jump:reopen", "close/reopen failed");
+            return;
+        }
+        const char *when = phase ? "after reopen" : "same session";
+        if (Hnumber(fid, 100) != n + 1)
+            mc_violation("jump:number", "%s: Hnumber(100) = %d, %d objects exist", when, (int)Hnumber(fid, 100), n + 1);
+        for (int r = 1; r <= n; r++)
+            if (Hexist(fid, 100, (uint16)r) == FAIL) {
+                mc_violation("jump:exist", "%s: (100,%d) is reported missing", when, r);
+                break;
+            }
+        uint16 nr = Htagnewref(fid, 100);
+        if (nr == 0 || (nr <= n) || nr == jump || Hexist(fid, 100, nr) != FAIL)
+            mc_violation("jump:tagnewref-in-use", "%s: Htagnewref(100) returns %u, which is %s", when, nr, nr == 0 ? "no number although free ones exist" : "in use");
+    }
+    /* delete the three highest of the consecutive ones: each must succeed once and be gone */
+    for (int r = n; r > n - 3; r--) {
+        if (Hdeldd(fid, 100, (uint16)r) == FAIL)
+            mc_violation("jump:del", "Hdeldd(100,%d) of an existing object failed", r);
+        if (Hexist(fid, 100, (uint16)r) != FAIL)
+            mc_violation("jump:del-still-there", "(100,%d) still exists after Hdeldd", r);
+    }
+    if (Hnumber(fid, 100) != n + 1 - 3)
+        mc_violation("jump:number", "after three deletions Hnumber(100) = %d, expected %d", (int)Hnumber(fid, 100), n - 2);
+    if (Hclose(fid) == FAIL)
+        mc_violation("jump:close", "Hclose failed");
+    fid = FAIL;
+    mc_count("jump_cases", 1);
+}
+
 int
 C12_main(const char *tier, const char *replay)
 {
@@ -840,7 +898,10 @@ C12_main(const char *tier, const char *replay)
         int   cfg[32], ncfg, nops;
         mc_op ops[MC_MAXDEPTH];
         if (mc_load_replay(replay, cfg, &ncfg, ops, &nops, MC_MAXDEPTH) == 0 && ncfg == 1) {
-            bulk_case(cfg[0], NULL);
+            if (cfg[0] >= 1000)
+                jump_case(cfg[0] - 1000, NULL);
+            else
+                bulk_case(cfg[0], NULL);
             return 0;
         }
         if (ncfg < 3) {
@@ -863,6 +924,7 @@ C12_main(const char *tier, const char *replay)
     int          dmax     = thorough ? 7 : 4;
     /* the bulk cases first: the deepening search below may use up the whole time allowance */
     mc_foreach(6, bulk_case, NULL, 1, 300);
+    mc_foreach(30, jump_case, NULL, 1, 300);
     for (int depth = thorough ? 3 : dmax; depth <= dmax; depth++) {
         char label[64];
         snprintf(label, sizeof label, "depth %d", depth);
